@@ -630,6 +630,8 @@ func (e *Exec) Apply(op Op) (st Step) {
 		if err == nil && ok {
 			if o.VL != nil {
 				o.VL, o.Written = nil, false // element references of a resized vlen dataset are not modelled until rewritten
+			} else if HugeExtent(op.Dims) {
+				o.Raw, o.Written = nil, false // a declared extent that is never materialised; contents are modelled again after the next full write
 			} else {
 				for i := range op.Dims {
 					if o.Written && op.Dims[i] > o.Dims[i] {
